@@ -61,7 +61,7 @@ enum {
     OP_FD_OPEN, OP_FD_WRITE, OP_FD_CLOSE, OP_FD_REG, OP_FD_DEREG, OP_TMR_REG, OP_TMR_DEREG, OP_SGN_REG, OP_SGN_DEREG, OP_RAISE,
     OP_PATH_REG, OP_PATH_DEREG, OP_TOUCH, OP_PID_REG, OP_PID_DEREG, OP_CHILD_SPAWN, OP_CHILD_KILL, OP_TASK_REG, OP_TASK_DEREG,
     OP_THRESH_REG, OP_THRESH_DEREG, OP_SRCLEN, OP_MSTATS, OP_LOOKUP, OP_EVT_RETAIN, OP_EVT_RELEASE, OP_EVT_CHECK, OP_MOD_REF, OP_MOD_UNREF,
-    OP_SLEEP, OP_ERRNO, OP_QUIESCE, OP_MOD_LOG, OP_MOD_DUMP, OP_NAMEOF, OP_FD_HUP, OP_OBS_DROP_KEEP, OP_MAX
+    OP_SLEEP, OP_ERRNO, OP_QUIESCE, OP_MOD_LOG, OP_MOD_DUMP, OP_NAMEOF, OP_FD_HUP, OP_OBS_DROP_KEEP, OP_BIND, OP_MAX
 };
 static const char *opnames[OP_MAX] = {
     "none", "ctx_register", "ctx_deregister", "ctx_loop", "ctx_dispatch", "ctx_dispatch_until", "ctx_quit", "ctx_finalize",
@@ -71,7 +71,7 @@ static const char *opnames[OP_MAX] = {
     "fd_open", "fd_write", "fd_close", "fd_reg", "fd_dereg", "tmr_reg", "tmr_dereg", "sgn_reg", "sgn_dereg", "raise",
     "path_reg", "path_dereg", "touch", "pid_reg", "pid_dereg", "child_spawn", "child_kill", "task_reg", "task_dereg",
     "thresh_reg", "thresh_dereg", "srclen", "mstats", "lookup", "evt_retain", "evt_release", "evt_check", "mod_ref", "mod_unref",
-    "sleep", "errno", "quiesce", "mod_log", "mod_dump", "nameof", "fd_hup", "obs_drop_keep_handle",
+    "sleep", "errno", "quiesce", "mod_log", "mod_dump", "nameof", "fd_hup", "obs_drop_keep_handle", "bind",
 };
 
 typedef struct { int op; long long a[6]; int na; } op_t;
@@ -470,6 +470,7 @@ static long long do_op(op_t *o) {
     case OP_PAUSE: ret = m_mod_pause(H(a[0])); break;
     case OP_RESUME: ret = m_mod_resume(H(a[0])); break;
     case OP_STOP: ret = m_mod_stop(H(a[0])); break;
+    case OP_BIND: { m_mod_t *m = H(a[0]), *ref = H(a[1]); if (!m || !ref) { ret = -1007; break; } ret = m_mod_bind(m, ref); break; }   /* m follows the state changes of ref */
     case OP_OBS_DROP: { slot_t *s = &SL[SELF(a[0])]; if (s->obs) { m_mem_unrefp((void **)&s->obs); }
         /* a module deregistered by the library itself (context teardown, replacement) leaves the user's own reference to be dropped */
         if (s->handle) { m_mem_unrefp((void **)&s->handle); } break; }
